@@ -52,6 +52,7 @@ func pebbleOpts(fs vfs.FS, tinyCache bool) pebblev2.Option {
 		o.DisableAutomaticCompactions = true
 		o.MemTableSize = 32 << 20
 		o.CacheSize = 256 << 20
+		o.L0StopWritesThreshold = 1 << 20 // compactions are off: never stall writes on the L0 file count
 		if tinyCache {
 			// every read of flushed data goes to the file: buffers handed to read callbacks are
 			// recycled right after the callback returns
